@@ -64,8 +64,9 @@ CHECKS = {
         technique="Hypothesis-constructed operations x every declared 2xx status x declared media type x conforming bodies (JSON documents from the independent schema model, text, bytes, 0..4 JSON events for streams) answered by an in-memory server; oracle on the returned value: instance of the annotated return type, re-serialisation equals the body (C03 relation), None / text / bytes / ordered stream items",
         text="About 2 200 (operation, status, media, body) cases per quick run. 3 root causes repaired (missing import on secondary/"
              "multi-media branches, text/plain parsed as JSON, plus the default-with-content fix shared with C06); 6 open findings "
-             "(secondary 2xx, ndjson, same-typed multi-media, formatted primitives, unconstrained schema, digit-leading operationId) "
-             "are excluded by construction with counts.",
+             "(ndjson, same-typed multi-media, formatted primitives, unconstrained schema, digit-leading operationId, colliding "
+             "synthesised response names) are excluded by construction with counts; the secondary-2xx finding is attributed by "
+             "signature so that primary responses of multi-2xx operations stay explored.",
         note="Unions belong to C14; stream payloads are one JSON object per event; the return annotation is obtained with typing.get_type_hints; masked: defects that need an excluded trigger.",
         design="§5 C05",
     ),
@@ -85,7 +86,7 @@ CHECKS = {
              "reached by fewer methods than it has tag groups is silently dropped, by more is duplicated. Attribution is by the "
              "request actually issued, so no naming rule is trusted. Naming-strategy clauses are asserted only where the "
              "documentation is unambiguous (unique snake_case ids kept verbatim; `path` names start with the HTTP method).",
-        note="Packages that do not import are skipped (C01); a package in which some method cannot be driven to a request with probe arguments is counted as undecided, not as a violation; tag groups compared by lower-cased alphanumeric content.",
+        note="A package that cannot be compiled/imported in this C01-clean domain is reported (every operation unreachable); a package in which some method cannot be driven to a request with probe arguments is counted as undecided, not as a violation; tag groups compared by lower-cased alphanumeric content.",
         design="§5 C07",
     ),
     "C08": dict(
@@ -94,14 +95,17 @@ CHECKS = {
         text="For every document the cycle tracker must be at rest (depth 0, empty stack) after each top-level schema, every state "
              "terminal, every declared name present, no RecursionError, and the number of enter events below 200*(size)^2. The depth "
              "limit must cut exactly when the unlimited run's tracker depth exceeds it, and schemas parsed after a deep one must be "
-             "unaffected. 38 032 enumerated cyclic graphs leave a schema in state not_started (known finding, exact bitmap).",
+             "unaffected. 38 032 enumerated cyclic graphs leave a schema in state not_started (known finding, exact bitmap). "
+             "Small cyclic multigraphs must also load with the depth limit switched off (cycle detection, not the limit, has to cut "
+             "them; finding C08-F03 excluded by a structural trigger), and whole documents whose operations contain rejected "
+             "sub-schemas must leave the tracker at rest and later operations intact.",
         note="Termination is an event budget, not a proof; surplus (clamped) exit events are not observable state and are not reported; interpreter recursion limit 1000.",
         design="§5 C08",
     ),
     "C09": dict(
         category="exploration",
         technique="Hypothesis-constructed specs (cyclic graphs and discriminated unions included) generated in 4 child interpreters differing in PYTHONHASHSEED, warm-up history, project root and patched wall clock, manifests (relative path -> sha256) compared; in-process histories generate(force);generate(no force) with full-tree snapshots and generate;mutate(edit client/model/models __init__/core file, delete endpoint module);generate(no force)",
-        text="800 documents per quick run, each generated 4+3 times. Any byte difference between the child runs, any id()-derived name "
+        text="800 documents per quick run, each generated 4+3 times (layouts include a sibling core named <client>_core; schema pairs differing only in letter case). Any byte difference between the child runs, any id()-derived name "
              "or absolute path in the output, any touched file or failure in the no-op re-run and any mutation that the non-force run "
              "reports as up to date is a violation. 4 root causes found and repaired (shared-core re-run always 'Differences found', "
              "deleted file unnoticed, suffix-colliding operationIds differing between force and diff path, hash-seed dependent order "
@@ -111,7 +115,7 @@ CHECKS = {
     ),
     "C10": dict(
         category="fault_enumeration",
-        technique="enumerated fault points (none, each of 10 generation stages failed by wrapping the callable from the harness, every k-th file write aborted through a sys.addaudithook on open()) x force on/off x existing tree absent/equal/edited/partial x 5 layouts x 3 documents; oracle = recursive before/after snapshot (path, size, sha256, mtime_ns) of a sandbox project root seeded with sentinel files + audit log of write/remove/rename/mkdir events under the root",
+        technique="enumerated fault points (none, each of 10 generation stages failed by wrapping the callable from the harness, every k-th file write aborted through a sys.addaudithook on open()) x force on/off x existing tree absent/equal/client file edited/partial/core file edited x 6 layouts (incl. sibling core <client>_core) x 3 documents; oracle = recursive before/after snapshot (path, size, sha256, mtime_ns) of a sandbox project root seeded with sentinel files + audit log of write/remove/rename/mkdir events under the root",
         text="~2 500 fault cases per quick run (every 3rd write index), all write indices in thorough (exhaustive over the fault axis). "
              "Without force over an existing package the tree must be byte- and mtime-identical and no write/remove event may occur "
              "under the project root in any outcome; in every mode each touched path must lie inside the output package, the core "
@@ -121,7 +125,7 @@ CHECKS = {
     ),
     "C11": dict(
         category="exploration",
-        technique="generated histories (2..7 generate_client steps over 3 client packages x 7 documents with different error-status sets x force on/off; shared-core depth 1..4 and client depth 1..3 per history), invariant checked after EVERY step in a fresh child interpreter: every client generated so far and the shared core import completely",
+        technique="generated histories (2..7 generate_client steps over 3 client packages x 7 documents with different error-status sets x force on/off; shared-core depth 1..4 or a core named <client a>_core, client depth 1..3 per history), invariant checked after EVERY step in a fresh child interpreter: every client generated so far and the shared core import completely",
         text="480 histories per quick run (~2 000 steps, each followed by a fresh-interpreter import of all clients). A step that makes "
              "another client's import fail (typically a status-specific exception class vanishing from the shared core) is a violation; "
              "histories shrink step-wise. One root cause found and repaired (registry bypassed for cores nested >= 3 packages deep).",
@@ -130,7 +134,7 @@ CHECKS = {
     ),
     "C12": dict(
         category="exploration",
-        technique="Hypothesis-constructed specs x core layouts x history (fresh project / shared core holding drifted runtime files) through generate_client; AST scan of every import node of every emitted file (module level, nested, TYPE_CHECKING) against an allow-list; fresh child interpreter with the generator blocked at the meta path running an exercise script (round-trips, get_mapping(), every client method); byte comparison of the copied runtime files",
+        technique="Hypothesis-constructed specs x core layouts x history (fresh project / shared core holding drifted runtime files) through generate_client; AST scan of every import node of every emitted file (module level, nested, TYPE_CHECKING) against an allow-list (relative imports may not climb above the top-level package); fresh child interpreter with the generator blocked at the meta path running an exercise script (round-trips, get_mapping(), every client method); byte comparison of the copied runtime files",
         text="~850 packages per quick run. Every import statement of every emitted file must name the standard library, httpx, cattrs, "
              "the output package or its core; the package is imported and exercised where `pyopenapi_gen` cannot be imported, so a "
              "generator import hidden in a function body of a rarely emitted template is executed; the 8 runtime files must equal "
@@ -150,7 +154,7 @@ CHECKS = {
     ),
     "C14": dict(
         category="exploration",
-        technique="dedicated Hypothesis union strategy (2..4 variants; object variants with disjoint/overlapping/nested/all-optional/identical field sets, scalars, arrays, maps, nullable; discriminator none/explicit/implicit/partial; all variant orders; tricky variant names) through generate_client; payloads conforming to a chosen variant decoded through the alias, a holder field and an array; round-trip equality against the variant's own schema + class / error checks for discriminated unions",
+        technique="dedicated Hypothesis union strategy (2..4 variants; object variants with disjoint/overlapping/nested/all-optional/identical field sets, scalars, arrays, maps, nullable; discriminator none/explicit/implicit/partial; all variant orders; tricky variant names; distinguishing required fields under camelCase/kebab/@-prefixed/acronym/reserved-word wire names) through generate_client; payloads conforming to a chosen variant decoded through the alias, a holder field and an array; round-trip equality against the variant's own schema + class / error checks for discriminated unions",
         text="~17 000 (union, place, payload) decodings per quick run. A payload generated from variant i must re-encode to itself "
              "(no key dropped by matching another variant); with an explicit mapping the class must be the mapped one, an unmapped "
              "value must be rejected and a mapped-but-undecodable payload must raise. One root cause repaired (mapping imported "
@@ -161,8 +165,8 @@ CHECKS = {
     ),
     "C15": dict(
         category="exploration",
-        technique="complete position x payload x placement matrix (32 text-bearing positions of a template document x 50 hostile payloads mid-text, 13 edge-sensitive payloads also alone / at the start / at the end / on their own line / inside a long wrapped text; thorough: all 50 x 6 placements: quotes, triple quotes, backslash sequences, every Unicode line separator, NUL, bidi/astral characters, expression-injection strings, code-looking lines such as 'async def f(self):' and '@overload') plus Hypothesis text() payloads, through generate_client; oracle = every emitted file parses, the AST skeleton (literals, docstrings and position-derived identifiers masked) equals the benign-payload baseline as a multiset, and semantic literals (enum values, wire names, mapping keys, defaults) evaluate/are sent as exactly the spec string",
-        text="3 680 matrix cases + 400 Hypothesis cases (random text and token concatenations, random placement) per quick run; the matrix is complete for the listed positions and payloads. "
+        technique="complete position x payload x placement matrix (33 text-bearing positions of a template document x 50 hostile payloads mid-text, 18 edge-sensitive payloads also alone / at the start / at the end / on their own line / inside a long wrapped text; thorough: all 50 x 6 placements: quotes, triple quotes, backslash sequences, every Unicode line separator, NUL, bidi/astral characters, expression-injection strings, code-looking lines such as 'async def f(self):' and '@overload') plus Hypothesis text() payloads, through generate_client; oracle = every emitted file parses, the AST skeleton (literals, docstrings and position-derived identifiers masked) equals the benign-payload baseline as a multiset, and semantic literals (enum values, wire names, mapping keys, defaults) evaluate/are sent as exactly the spec string",
+        text="4 620 matrix cases + 400 Hypothesis cases (random text and token concatenations, random placement) per quick run; the matrix is complete for the listed positions and payloads. "
              "A payload may only change string constants, comments and (for name positions) the derived identifiers; the request observed "
              "at a mock transport must carry the raw parameter name. 9 root causes were found and repaired in three fix commits "
              "(unescaped string literals, docstrings closed by triple quotes or a trailing quote, comments ended by CR/U+2028, NUL, surrogate-pair defaults, enum members dropped by Enum).",
@@ -171,7 +175,7 @@ CHECKS = {
     ),
     "C16": dict(
         category="exploration",
-        technique="Hypothesis-built dataclass type trees (make_dataclass, random bijective Meta key maps) x conforming JSON; round-trip laws both directions, differential against a fresh copy of the module (history independence), corrupted-leaf error reporting, serialiser on generated instance graphs (chain/self-loop/ring/diamond/random; two annotation styles) against an independent reference",
+        technique="Hypothesis-built dataclass type trees (make_dataclass, random bijective Meta key maps) x conforming JSON; round-trip laws both directions, differential against a fresh copy of the module (history independence), corrupted-leaf error reporting, serialiser on generated instance graphs (chain/self-loop/ring/diamond/random; two annotation styles) against an independent reference; rings of 1..3 mutually referencing mapped dataclass types decoded first thing in a fresh converter copy",
         text="Each case is a history of up to 5 differently shaped, possibly same-named dataclass types run through one fresh copy of "
              "the working tree's cattrs_converter.py/utils.py; every result must satisfy decode.encode = id, encode.decode = id, equal "
              "the result of a module copy that has seen nothing else, and failures must be ValueErrors naming a field on the path. The "
@@ -201,12 +205,12 @@ CHECKS = {
     ),
     "C20": dict(
         category="exploration",
-        technique="(a) exhaustive enumeration of all strings of length <=4 over an 18-character alphabet through every name-derivation function with a call site, plus Hypothesis Unicode text and keyword spellings; validity predicate oracle (non-empty, isidentifier, not keyword). (b) raw names that are distinct but collide after derivation, placed in one namespace (properties of a schema, parameters of an operation, component schemas, values of an enum, operations of a tag) of a real document: all pairs and triples of a 15-name collision cluster, all pairs of 25 keyword-like spellings, Hypothesis-built clusters (12 spelling styles x 12 suffixes incl. the suffixes de-collision itself hands out); through generate_client + import; oracle = semantic identity of every name (decode/encode round trip per property, parameter values observed on the wire, class per schema and reference targets, enum member values, reachability of every operation by a method of its own)",
+        technique="(a) exhaustive enumeration of all strings of length <=4 over an 18-character alphabet through every name-derivation function with a call site, plus Hypothesis Unicode text and keyword spellings; validity predicate oracle (non-empty, isidentifier, not keyword). (b) raw names that are distinct but collide after derivation, placed in one namespace (properties of a schema, parameters of an operation, component schemas, values of an enum, operations of a tag, also when they meet there only through their second tag) of a real document: all pairs and triples of a 15-name collision cluster, all pairs of 25 keyword-like spellings, Hypothesis-built clusters (12 spelling styles x 12 suffixes incl. the suffixes de-collision itself hands out); through generate_client + import; oracle = semantic identity of every name (decode/encode round trip per property, parameter values observed on the wire, class per schema and reference targets, enum member values, reachability of every operation by a method of its own)",
         text="Totality/validity is decided exhaustively for short strings (111 151 strings x 5 derivation functions) and sampled for "
              "long Unicode strings; collision-safety is decided on ~3 600 generated packages per quick run by checking that every raw "
-             "name keeps an identity of its own in the imported package. 3 open findings (schemas with equal derived class name are "
-             "merged; letter-less schema names shadowed by a module; colliding parameter names give a duplicate argument) are "
-             "excluded by construction with counts. Search with an exhaustive small scope, not a proof.",
+             "name keeps an identity of its own in the imported package. 2 open findings (schemas with equal derived class name are "
+             "merged; letter-less schema names shadowed by a module) are excluded by construction with counts; colliding "
+             "parameter names were repaired. Search with an exhaustive small scope, not a proof.",
         note="Derivation functions without call sites are not checked; strings longer than 4 are sampled; part (b) covers the five namespaces the property lists, with integer properties/parameters only; tag attributes are covered by C07.",
         design="§5 C20",
     ),
